@@ -153,9 +153,10 @@ def dump_generated(work, out_basic, out_ext, name):
         os.makedirs(d)
         for f in glob.glob(os.path.join(src, '*')):
             shutil.copy(f, d)
-    exe, err = compiler.build_generated('dbdump-' + name, ['dbdump.cpp'], inc, sorted(glob.glob(os.path.join(inc, 'ace_time', '*', '*.cpp'))))
-    if exe is None:
+    exes, err = compiler.build_generated('dbdump-' + name, ['dbdump.cpp'], inc, sorted(glob.glob(os.path.join(inc, 'ace_time', '*', '*.cpp'))))
+    if exes is None:
         return None, err
+    exe = exes['dbdump']
     out = {}
     for db in ('basic', 'extended'):
         rc, o, e, _ = common.run_cmd([exe, db], timeout=600)
